@@ -180,15 +180,36 @@ func runScenario(sc *scenario) (res *scenResult) {
 		d.st = append(d.st, &roundState{})
 	}
 	newBlockCh := make(chan *wire.Hash, 4)
+	// stalled broadcaster (every other same-height scenario): the channel the miner announces its blocks on is full and
+	// is only read again 1.2 s after the first block was due - the second template for the same height arrives meanwhile
+	stalled := sc.P.Class == "same-height" && (sc.P.Idx/20)%2 == 0
+	startDrain := make(chan struct{})
+	var drainOnce sync.Once
+	openDrain := func() { drainOnce.Do(func() { close(startDrain) }) }
+	skipFirst := false
+	if stalled {
+		newBlockCh = make(chan *wire.Hash, 1)
+		newBlockCh <- &wire.Hash{}
+		skipFirst = true
+		res.count("scenarios_with_stalled_broadcaster", 1)
+	} else {
+		openDrain()
+	}
 	var announced []wire.Hash
 	var amu sync.Mutex
 	go func() {
+		<-startDrain
 		for h := range newBlockCh {
+			if skipFirst {
+				skipFirst = false // the harness's own filler
+				continue
+			}
 			amu.Lock()
 			announced = append(announced, *h)
 			amu.Unlock()
 		}
 	}()
+	defer openDrain()
 	addr, err := massutil.NewAddressWitnessScriptHash(make([]byte, 32), &config.ChainParams)
 	if err != nil {
 		res.Drops = append(res.Drops, "harness:address:"+err.Error())
@@ -203,6 +224,12 @@ func runScenario(sc *scenario) (res *scenResult) {
 	margin := time.Duration(sc.P.MarginMs) * time.Millisecond
 
 	st0 := d.activate(0)
+	if sc.P.Class == "tip-at-template" {
+		tip := d.tipNode(sc.P.TipKind)
+		d.chain.mu.Lock()
+		d.chain.switchAtTemplate = tip
+		d.chain.mu.Unlock()
+	}
 	started := time.Now()
 	if err := mi.Start(); err != nil {
 		res.Drops = append(res.Drops, "harness:start:"+err.Error())
@@ -223,6 +250,25 @@ func runScenario(sc *scenario) (res *scenResult) {
 		st0.must = st0.exp.Exists
 		if d.awaitDue(0, res) {
 			time.Sleep(afterAccept)
+		}
+	case "tip-at-template":
+		// forbidden from the start: the better tip is the best node before the miner has seen the template
+		st0.forbid, st0.forbidFrom = "better-tip-connected-before-the-round-started", started
+		until := started.Add(8 * time.Second)
+		if st0.exp.Exists {
+			if t := st0.exp.TS.Add(4 * time.Second); t.After(until) {
+				until = t
+			}
+		}
+		d.waitSub(0, 0, until)
+		st0.gaveUpAt = time.Now()
+		d.chain.mu.Lock()
+		sw := d.chain.switchedAt
+		d.chain.mu.Unlock()
+		if sw.IsZero() {
+			st0.drop = "harness:miner-never-asked-for-a-template"
+		} else {
+			d.ev("better tip (%s) connected inside the chain's template call", sc.P.TipKind)
 		}
 	case "tip-before":
 		if !st0.exp.Exists {
@@ -320,6 +366,9 @@ func runScenario(sc *scenario) (res *scenResult) {
 			break
 		}
 		time.Sleep(time.Duration(300+sc.rounds[0].rng.Intn(1200)) * time.Millisecond)
+		if stalled {
+			time.AfterFunc(1200*time.Millisecond, openDrain)
+		}
 		if sc.P.Restart {
 			if !d.stop() {
 				stopped = true
